@@ -281,8 +281,12 @@ func (li *Listener) Close() error {
 	li.doneOnce.Do(func() {
 		close(li.doneChan)
 	})
+	// Close the QUIC listener before the packet connection it reads from. The other way round, the
+	// transport's read loop sees the closed connection and shuts the server down under its own mutex
+	// while ql.Close() is doing the same from here, and the two wait for each other forever.
+	qerr := li.ql.Close()
 	perr := li.pc.Close()
-	if qerr := li.ql.Close(); qerr != nil {
+	if qerr != nil {
 		return qerr
 	}
 
